@@ -41,6 +41,11 @@ var ExtraConfig = []Seed{
 	{"obj-key-tmpl", "a = {\n  \"${foo.bar}-n\" = bar\n  \"k${x.bar}\" : \"${baz.bar}\"\n}\n"},
 }
 
+// RangeConfig: seeds used only by the range-fidelity harnesses (C14).
+var RangeConfig = []Seed{
+	{"double-parens", "a = ((b)) + c * ((d + e))\nf = g ? h : ((i))\n"},
+}
+
 var ExtraTemplate = []Seed{
 	{"interp", "hello ${name}!"},
 	{"if", "%{ if a }x%{ else }y%{ endif }"},
